@@ -167,11 +167,12 @@ def check_layout(ctx, view, rec):
   bad = set()
   for i, lay in enumerate(view.lays):
     rank = len(lay['padded'])
+    if rank == 0:
+      continue      # nothing to precondition, no state to look for
     if view.so == 'shampoo':
-      has = view.stats(rec['prev'], i, 0) is not None if rank else \
-          view.find(rec['prev'], f".blocks['p{i}']") is not None
+      has = view.stats(rec['prev'], i, 0) is not None
     else:
-      has = view.axis(rec['prev'], i, 0) is not None if rank else None
+      has = view.axis(rec['prev'], i, 0) is not None
     if has is None:
       continue
     if has == lay['masked']:
